@@ -161,7 +161,8 @@ def o_sign(case, cfgs=ACCEL):
                      "r=%d s=%d, and k += 1 runs to k = n = %d where k*G is infinity" % (where, ex, k0, r0, s0, n))
             raise
         rs = g.sign(d, z)
-        if tuple(rs) != (r, s):
+        if tuple(rs) != (r, s) and not (backend_of(g) == "libsecp256k1" and tuple(rs) == (r, n - s)):
+            # (a native backend may normalise s <-> n-s in sign() only: the property allows that)
             _bad("sign:sign!=sign_with_recid", "%s: sign -> %r, sign_with_recid -> %r" % (where, rs, (r, s, recid)))
         if not (isinstance(r, int) and isinstance(s, int) and 1 <= r < n and 1 <= s < n):
             _bad("sign:out-of-range", "%s: (r,s) = (%s,%s) not in [1,n-1]" % (where, _h(r), _h(s)))
@@ -229,8 +230,10 @@ def o_sign_blinding(case):
     target = {"nonce": k0, "u1": u1, "u1-other-s": u1_low, "nonce+1": k0 + 1, "zero": 0}[case["cancel"]]
     b = (-target) % n
     g = ecgen.build_generator(spec, cfg, entropy_f=ecgen.entropy_from_hex("%064x" % b))
-    labels = [curve_label(spec), "cfg=" + cfg, "cancel=" + case["cancel"],
-              "blinding-as-chosen" if getattr(g, "_blinding_factor", None) == b else "blinding-differs"]
+    if getattr(g, "_blinding_factor", None) != b:
+        raise HarnessError("the generator built with chosen entropy does not carry the chosen blinding factor: this "
+                           "sub-check would be vacuous (attribute renamed or entropy width changed?)")
+    labels = [curve_label(spec), "cfg=" + cfg, "cancel=" + case["cancel"], "blinding-as-chosen"]
     where = "%s/%s instance with blinding factor n - %s, d=%s z=%s" % (c.name, cfg, case["cancel"], _h(d), _h(z))
     r, s = g.sign(d, z)
     if (r, s) != (r0, s0):
